@@ -25,6 +25,26 @@ CHECKS = {
    text="ArenaProofs.v proves, for every interning history, every byte content and every hash function: blocks lie inside their pools and never overlap, the characters read back from any returned String are the bytes interned whatever is interned later, two requests return the same node iff their contents are equal, earlier answers never change, and the empty and reserved words map to constants without allocating. The binary search is proved correct for the table read from the current source, which is checked to be strictly sorted. The extracted model and the real string pool then intern the same streams (boundary lengths, all byte values, near misses of reserved words, pool roll-over, oversize) and are compared on identity classes and on the (pool, offset) placement of every new string.",
    note="Trusted: Coq kernel, extractor (known_words table), extraction, c03_driver (reads arena internals with #define private public), ASan. Modelled, not verified: operator new, std::map/forward_list buckets, std::hash (arbitrary function in the proofs), std::copy.",
    ref="DESIGN.md §6 C03"),
+ "C01": dict(
+   technique="Coq proof: request histories over finite-map tables (induction over histories; normal forms as a function), refinement of the red-black container to the finite map for any total-order comparator (Unify.v on top of the C08 proofs), total-order lemmas for every comparator shape; comparator call sites re-read from the clang AST; seeded differential runs of the extracted model against impl::Lexicon with an independent identity-partition oracle",
+   text="c01_types_unified: for every history of type-constructor requests and every operand choice, two requests return the same node iff they stand for the same key after the documented collapses (default false specification, natural transfer by value, Warehouse copies, qualifier merging); answers never change later. LexTables.v shows each table shape (unary/binary/ternary by address, qualifier value, sequences element-wise, transfers by spelling) behaves like the finite map on the real red-black container for every injective address map. GenCheck/GenCmp re-derive from the current source which operator() each insert site resolves to and reject the (Node,Node) self-address overload. The correspondence replays 2.8k (quick) / 60k (thorough) requests with 35% repeats and 20% one-operand near misses on both model and implementation.",
+   note="Trusted: Coq kernel, extractor (GenCmp), extraction, lex_driver. Modelled, not verified: the per-table trees are one association list at the spec layer (refinement proved generically, not per call site); operands are assumed well-typed and to outlive the Lexicon.",
+   ref="DESIGN.md §6 C01"),
+ "C04": dict(
+   technique="Same Coq model and refinement as C01, plus invariants proved by induction over histories: one String per spelling, one Identifier per spelling (reserved words included), value equality = spelling equality; comparator call sites re-read from the AST; differential runs with an independent oracle",
+   text="c04_names_and_atoms_unified is the unification theorem for names and atoms; c04_identifier_unique_per_spelling and c04_string_unique prove, for every reachable table, that two Identifier (String) nodes with the same spelling are the same node, where the names of the built-ins and symbolic constants are the reserved-word identifiers; c04_value_equality_is_spelling covers operator== on logogram-based values. Every reserved word is pushed through every route on the implementation and the model.",
+   note="As C01. String identity relies on C03.",
+   ref="DESIGN.md §6 C04"),
+ "C11": dict(
+   technique="Coq proof by induction over qualification sequences and histories (table invariant QInv; chain lemma) on the C01 model; exhaustive enumeration of all splittings of every qualifier subset on the implementation against the extracted model",
+   text="c11_qualified_never_empty, c11_main_variant_unqualified (for every well-scoped history) and c11_qualification_order_irrelevant (any two non-empty sequences of non-empty sets with the same union, any state in between, end in the very same node). The check enumerates every presentation of every non-empty subset of {const,volatile,restrict} as 1..3 successive requests over 8 (quick) / 22 (thorough) base types with unrelated requests interleaved.",
+   note="As C01.",
+   ref="DESIGN.md §6 C11"),
+ "C13": dict(
+   technique="Coq proof by computation over tables regenerated from the source (builtin.def rows, reserved words, constant definitions, accessor bodies) against a hand-written table of documented spellings; state-independence of the spelling routes proved on the C01 model; exhaustive dynamic sweep on three Lexicon instances",
+   text="Properties_C13.v: the 26 accessors return pairwise distinct rows, each spelled as documented and reserved; symbolic constants and linkages are defined, spelled and typed as documented; the tables are constexpr; every route from a spelling (string -> identifier -> as-type, linkage, label, decltype) yields the constant in every Lexicon state. The driver checks all of it on three Lexicon instances (two alive at once, one created after a destruction), including identity across instances.",
+   note="Trusted: extractor tables; the Nullptr constant's own type is checked dynamically only.",
+   ref="DESIGN.md §6 C13"),
 }
 
 NOT_YET = {}
